@@ -15,11 +15,12 @@ import Pyx12Verif.Drv.C11
 import Pyx12Verif.Drv.C09
 import Pyx12Verif.Drv.C07
 import Pyx12Verif.Drv.Doc
+import Pyx12Verif.Drv.C19Iter
 
 open Pyx12Verif
 
 def handlers : List (List (List Char) → Option String) :=
-  [Drv.C13.handle, Drv.C14.handle, Drv.C15.handle, Drv.C17.handle, Drv.C19.handle, Drv.C04.handle, Drv.C01.handle, Drv.C08.handle, Drv.C05.handle, Drv.C20.handle, Drv.C10.handle, Drv.C11.handle, Drv.C09.handle, Drv.C07.handle]
+  [Drv.C13.handle, Drv.C14.handle, Drv.C15.handle, Drv.C17.handle, Drv.C19.handle, Drv.C04.handle, Drv.C01.handle, Drv.C08.handle, Drv.C05.handle, Drv.C20.handle, Drv.C10.handle, Drv.C11.handle, Drv.C09.handle, Drv.C07.handle, Drv.C19Iter.handle]
 
 structure St where
   walk : Drv.Walk.DState := {}
